@@ -473,6 +473,29 @@ pub fn c04_c08(run: &Run, focus: Focus) -> (u64, u64) {
     run_sessions(run, focus, &sessions, &stats);
     total_sessions += sessions.len() as u64;
     run.family("CROSS", "ordered pairs of 6 roots sharing one table (a, b, a) and (a, ucinewgame, b) from generation 255", sessions.len() as u64, stats.searches.load(Ordering::Relaxed) - before, true, "");
+    if focus == Focus::C08 {
+        // what a search reports before it is stopped must be true as well: mate roots, every stop instant
+        let roots = ["2rr3k/pp3pp1/1nnqbN1p/3pN3/2pP4/2P3Q1/PPB4P/R4RK1 w - - 0 1", "1k1r4/pp1b1R2/3q2pp/4p3/2B5/4Q3/PPP2B2/2K5 b - - 0 1", "8/6k1/8/2R5/8/1K6/3Q1p2/8 w - - 1 25", "r1b1kb1r/pppp1ppp/5q2/4n3/3KP3/2N3PN/PPP4P/R1BQ1B1R b kq - 0 1", "r1bq2rk/pp3pbp/2p1p1pQ/7P/3P4/2PB1N2/PP3PPR/2KR4 w - - 0 1", "5k2/6pp/p1qN4/1p1p4/3P4/2PKP2Q/PP3r2/3R4 b - - 0 1", "4k1r1/2p3r1/1pR1p3/3pP2p/3P2qP/P4N2/1PQ4P/5R1K b - - 0 1"];
+        let mut sessions = vec![];
+        let mut polls = 0u64;
+        for f in roots {
+            let g = GameSpec::fen(f);
+            let spec = Spec::depth(if quick { 8 } else { 10 });
+            let (game, _) = g.build().unwrap();
+            let mut ps = PersistentState::new(1);
+            let o = run_search(&mut ps, &game, &spec, &Env::Default, DEFAULT_NODE_BUDGET);
+            polls += o.polls;
+            for k in 1..=o.polls {
+                sessions.push(Session { hash_mb: 1, start_gen: 0, steps: vec![Step::Search(g.clone(), spec.clone(), Env::StopAtPoll(k))] });
+                // time running out instead of a stop request (virtual clock, 1 microsecond per node)
+                sessions.push(Session { hash_mb: 1, start_gen: 0, steps: vec![Step::Search(g.clone(), Spec { depth: None, tc: Tc::MoveTime(k * 10), overhead_ms: 0 }, Env::Clock(Clock::PerNode(1000)))] });
+            }
+        }
+        let before = stats.searches.load(Ordering::Relaxed);
+        run_sessions(run, focus, &sessions, &stats);
+        total_sessions += sessions.len() as u64;
+        run.family("STOPPED-MATE-ROOTS", &format!("7 roots with forced mates: for every k in 1..=P (P = polls of the unstopped search, {polls} in total) the stop flag reads true from poll k on, and the move time runs out after k x 10 ms of a virtual clock; every line reported before the search ends is judged"), sessions.len() as u64, stats.searches.load(Ordering::Relaxed) - before, true, "");
+    }
     {
         let s = ep_twin_sessions(if quick { 6 } else { 8 });
         let before = stats.searches.load(Ordering::Relaxed);
